@@ -1,15 +1,656 @@
-"""C07 — mapping is invariant to count scale, declared normalisation, gene order."""
+"""C07 — mapping is invariant to count scale, declared normalisation, gene order.
+
+Two parts:
+ * model tie (function level): the real convert_to_cpm / CellByGeneMatrix operations /
+   is_data_ge_zero / write_query_markers_to_h5 / assemble_query_data against
+   coq/Model/Normalize.v (tags 701-706);
+ * paired REAL run_mapping runs (the property's own relational statement on the pipeline)."""
+import contextlib
+import io
 import json
+import shutil
+import warnings
+from fractions import Fraction
 
 import numpy as np
 
-from harness import pipeline, paired
+from harness import pipeline, paired, gen, trees
+from harness.core import exc_class
+
+M6 = 10 ** 6
+# on log2(1+v): v perturbed by <= 1e-12 relative moves log2(1+v) by <= 1e-12 * v/(1+v)/ln2 < 1.45e-12
+LOG_ABS_TOL = 2e-12
+CPM_REL_TOL = Fraction(1, 10 ** 12)
+
+
+# ------------------------------------------------------------------ exactness of the float computation
+def _odd_part_fits(n, bits):
+    n = abs(n)
+    while n and n % 2 == 0:
+        n //= 2
+    return n < 2 ** bits
+
+
+def row_is_exact(row, bits):
+    """True iff every float operation of convert_to_cpm on this integer row is exact in a
+    binary format with `bits` bits of mantissa: the row sum (all partial sums are integers
+    below 2^bits), x / S (the true quotient is a dyadic rational that fits) and (x / S) * 1e6
+    (the true product fits).  IEEE division and multiplication are correctly rounded, so an
+    exactly representable true result IS the computed result."""
+    if sum(abs(x) for x in row) >= 2 ** bits:
+        return False
+    s = sum(row)
+    den = s if s > 0 else 1
+    for x in row:
+        q = Fraction(x, den)
+        if q.denominator & (q.denominator - 1):
+            return False
+        if not _odd_part_fits(q.numerator, bits):
+            return False
+        c = q * M6
+        if not _odd_part_fits(c.numerator, bits):
+            return False
+    return True
+
+
+def composition(rng, total, parts):
+    cuts = sorted(rng.randrange(0, total + 1) for _ in range(parts - 1))
+    cuts = [0] + cuts + [total]
+    return [b - a for a, b in zip(cuts, cuts[1:])]
+
+
+def gen_row(rng, ng, mode):
+    if mode == 'zero':
+        return [0] * ng
+    if mode == 'dyadic':
+        # S = 2^a * o and every entry a multiple of o: x / S = m / 2^a exactly
+        a = rng.randrange(0, 11)
+        o = rng.choice([1, 1, 1, 3, 5, 7, 15, 25, 125, 1000])
+        return [m * o for m in composition(rng, 2 ** a, ng)]
+    if mode == 'big':
+        return [rng.randrange(0, 10 ** 7) if rng.random() < 0.7 else 0 for _ in range(ng)]
+    return [rng.randrange(0, 200) if rng.random() < 0.75 else 0 for _ in range(ng)]
+
+
+def gen_rows(rng, n_rows, ng, exact_bias):
+    rows = []
+    for _ in range(n_rows):
+        r = rng.random()
+        if r < 0.12:
+            mode = 'zero'
+        elif r < 0.12 + exact_bias:
+            mode = 'dyadic'
+        elif r < 0.95:
+            mode = 'general'
+        else:
+            mode = 'big'
+        rows.append(gen_row(rng, ng, mode))
+    return rows
+
+
+def pick_dtype(rng, rows, allow_int=True):
+    """float32 only when the whole computation is exact in 24 bits (the 1e-12 tolerance of
+    the general stream is meaningless in single precision)."""
+    cands = [np.float64, np.float64]
+    if allow_int and all(abs(x) < 2 ** 31 for r in rows for x in r):
+        cands += [np.int64, np.int32]
+    if all(row_is_exact(r, 24) for r in rows):
+        cands += [np.float32, np.float32]
+    return rng.choice(cands)
+
+
+def bits_of(dtype):
+    return 24 if np.dtype(dtype) == np.float32 else 53
+
+
+def check_cpm_value(v, fr, exact):
+    """v: the float the implementation produced; fr: the model's exact value."""
+    fv = Fraction(float(v))
+    if exact:
+        return fv == fr
+    return abs(fv - fr) <= CPM_REL_TOL * abs(fr)
+
+
+def check_log_value(v, fr, exact, dtype):
+    """v = implementation's log2(1+cpm); fr = the model's exact CPM value.  The model says
+    'lg of the value fr'; lg is numpy's log2(1 + .) in the implementation's float type."""
+    if exact:
+        t = np.float32 if np.dtype(dtype) == np.float32 else np.float64
+        x = t(fr.numerator / fr.denominator)        # exact: fr is representable (row_is_exact)
+        assert Fraction(float(x)) == fr
+        return float(v) == float(np.log2(t(1.0) + x))
+    return abs(float(v) - float(np.log2(1.0 + float(fr)))) <= LOG_ABS_TOL
+
+
+def frac_of(pair):
+    return Fraction(pair[0], pair[1])
+
+
+ERR_PATTERNS = [
+    ('occurs more than once in selected_genes', 6),
+    ('has been downsampled by genes', 5),
+    ('already is not raw', 4),
+    ('gene_identifiers, but data has', 2),
+    ('appear more than once', 3),
+    ('Do not know how to handle normalization', 9),
+]
+
+
+def err_code(e):
+    if isinstance(e, KeyError):
+        return 7
+    if isinstance(e, IndexError):
+        return 8
+    if isinstance(e, RuntimeError):
+        for pat, code in ERR_PATTERNS:
+            if pat in str(e):
+                return code
+    return 99
+
+
+def gname(i):
+    return pipeline.gname(i)
+
+
+def gnum(s):
+    return int(s[1:])
+
+
+# ------------------------------------------------------------------ stream A: convert_to_cpm
+def cpm_cases(ctx):
+    from cell_type_mapper.cell_by_gene.utils import convert_to_cpm
+    rng = ctx.rng
+    n = ctx.n(300, 6000)
+    mats, cases = [], []
+    for _ in range(n):
+        ng = rng.choice([1, 1, 2, 3, 4, 5, 8, 13])
+        rows = gen_rows(rng, rng.randrange(1, 6), ng, exact_bias=0.45)
+        if rng.random() < 0.1:
+            # negative entries: convert_to_cpm itself is total (the rejection happens upstream)
+            i, j = rng.randrange(len(rows)), rng.randrange(ng)
+            rows[i][j] = -rng.randrange(1, 50)
+        dt = pick_dtype(rng, rows)
+        mats.append((rows, dt))
+        cases.append((701, rows))
+    res = ctx.model(cases)
+    for (rows, dt), r in zip(mats, res):
+        arr = np.array(rows, dtype=dt)
+        out = convert_to_cpm(arr)
+        bits = bits_of(dt)
+        bad = None
+        if r[0] != 0 or out.shape != arr.shape:
+            bad = f'shape/decoding: model {r[0]}, shapes {out.shape} vs {arr.shape}'
+        else:
+            for i, row in enumerate(rows):
+                ex = row_is_exact(row, bits)
+                ctx.count(('cpm', tuple(row), np.dtype(dt).name), nontrivial=(sum(row) > 0 and len(row) > 1))
+                ctx.dist('cpm_stream', f'exact-equality({np.dtype(dt).name})' if ex else 'general-rel-1e-12')
+                ctx.dist('cpm_row_kind', 'all-zero' if not any(row) else
+                         ('single-gene' if len(row) == 1 else ('has-negative' if min(row) < 0 else 'ordinary')))
+                for j in range(len(row)):
+                    fr = frac_of(r[1][i][j])
+                    if fr != Fraction(row[j] * M6, sum(row) if sum(row) > 0 else 1):
+                        bad = f'model fraction {r[1][i][j]} is not x*10^6/denom for row {row} entry {j}'
+                    elif not check_cpm_value(out[i, j], fr, ex):
+                        bad = (f'convert_to_cpm row {row} ({np.dtype(dt).name}) entry {j}: implementation '
+                               f'{float(out[i, j])!r}, model {fr} ({"exact" if ex else "1e-12"} comparison)')
+                    if bad:
+                        break
+                if bad:
+                    break
+        if bad:
+            ctx.disagreements_checked += 1
+            ctx.violation('convert_to_cpm and its model disagree: ' + bad,
+                          {'class': 'corr:Normalize.cpm_row', 'kind': 'convert_to_cpm', 'rows': rows, 'dtype': np.dtype(dt).name, 'model': r,
+                           'impl': out.tolist()}, no_input=True)
+    ctx.sample({'kind': 'convert_to_cpm', 'rows': mats[0][0], 'dtype': np.dtype(mats[0][1]).name, 'model': res[0]}, limit=6)
+
+
+# ------------------------------------------------------------------ stream B: CellByGeneMatrix operations
+def gen_sel(rng, genes):
+    r = rng.random()
+    k = rng.randrange(0, len(genes) + 1)
+    sel = rng.sample(genes, k)
+    if r < 0.12 and sel:
+        sel.insert(rng.randrange(len(sel) + 1), rng.choice(sel))           # duplicate
+    elif r < 0.24:
+        sel.insert(rng.randrange(len(sel) + 1), 900 + rng.randrange(5))    # unknown name
+    return sel
+
+
+NORM_WIRE = {'raw': 0, 'log2CPM': 1}
+
+
+def ops_cases(ctx):
+    from cell_type_mapper.cell_by_gene.cell_by_gene import CellByGeneMatrix
+    rng = ctx.rng
+    n = ctx.n(400, 8000)
+    recs, cases = [], []
+    for _ in range(n):
+        ng = rng.choice([1, 2, 3, 4, 5, 6])
+        genes = rng.sample(range(60), ng)
+        rows = gen_rows(rng, rng.randrange(1, 5), ng, exact_bias=0.4)
+        dt = pick_dtype(rng, rows)
+        norm = rng.choice(['raw', 'raw', 'raw', 'raw', 'log2CPM', 'bogus'])
+        names = list(genes)
+        r = rng.random()
+        if r < 0.06 and ng > 1:
+            names[rng.randrange(1, ng)] = names[0]            # duplicate gene identifier
+        elif r < 0.12:
+            names = names + [77] if rng.random() < 0.5 or ng == 1 else names[:-1]   # wrong number of identifiers
+        ops = []
+        cur = list(names)
+        for _k in range(rng.choice([0, 1, 1, 2, 2, 3])):
+            if rng.random() < 0.45:
+                ops.append([rng.choice(['log_inplace', 'log_new'])])
+            else:
+                sel = gen_sel(rng, cur) if cur else []
+                ops.append([rng.choice(['down_new', 'down_inplace']), sel])
+                cur = list(sel)
+        recs.append((names, rows, dt, norm, ops))
+        wire_ops = [[0] if o[0].startswith('log') else [1, o[1]] for o in ops]
+        cases.append((703, [names, rows, NORM_WIRE.get(norm, 5), wire_ops]))
+    res = ctx.model(cases)
+    for (names, rows, dt, norm, ops), r in zip(recs, res):
+        arr = np.array(rows, dtype=dt)
+        m = None
+        try:
+            m = CellByGeneMatrix(data=arr.copy(), gene_identifiers=[gname(g) for g in names], normalization=norm)
+            for o in ops:
+                if o[0] == 'log_inplace':
+                    m.to_log2CPM_in_place()
+                elif o[0] == 'log_new':
+                    m = m.to_log2CPM()
+                elif o[0] == 'down_new':
+                    m = m.downsample_genes([gname(g) for g in o[1]])
+                else:
+                    m.downsample_genes_in_place([gname(g) for g in o[1]])
+            obs = ('ok',)
+        except Exception as e:       # noqa
+            obs = ('err', err_code(e), f'{exc_class(e)}: {e}'[:160])
+        desc = {'kind': 'CellByGeneMatrix-ops', 'genes': names, 'rows': rows, 'dtype': np.dtype(dt).name,
+                'normalization': norm, 'ops': ops, 'model': r,
+                'impl': list(obs[1:]) if obs[0] == 'err' else {
+                    'genes': m.gene_identifiers, 'norm': m.normalization, 'down': m._genes_downsampled,
+                    'data': np.asarray(m.data).tolist()}}
+        normalised = any(o[0].startswith('log') for o in ops)
+        guard = obs[0] == 'err' and obs[1] == 5
+        ctx.count(('ops', json.dumps([names, rows, norm, ops])),
+                  nontrivial=(r[0] == 0 and normalised and any(o[0].startswith('down') for o in ops)) or guard)
+        ctx.dist('ops_outcome', 'ok' if r[0] == 0 else f'error{r[1]}' if r[0] == 1 else 'undecodable')
+        ctx.dist('ops_shape', '+'.join(o[0].split('_')[0] for o in ops) or 'none')
+        bad = None
+        if r[0] == 2:
+            bad = 'model could not decode the case'
+        elif r[0] == 1:
+            if obs[0] != 'err':
+                bad = f'model rejects (error {r[1]}), implementation accepts'
+            elif obs[1] != r[1]:
+                bad = f'error kinds differ: implementation {obs[1]} ({obs[2]}), model {r[1]}'
+        else:
+            if obs[0] != 'ok':
+                bad = f'implementation raised {obs[2]}, model accepts'
+            else:
+                mg, md, mn, mdown = r[1]
+                data = np.asarray(m.data)
+                if [gnum(g) for g in m.gene_identifiers] != mg:
+                    bad = f'gene identifiers {m.gene_identifiers} vs model {mg}'
+                elif NORM_WIRE[m.normalization] != mn:
+                    bad = f'normalization {m.normalization} vs model {mn}'
+                elif bool(m._genes_downsampled) != bool(mdown):
+                    bad = f'_genes_downsampled {m._genes_downsampled} vs model {mdown}'
+                elif data.shape != (len(md), len(mg)):
+                    bad = f'data shape {data.shape} vs model {(len(md), len(mg))}'
+                else:
+                    bits = bits_of(dt)
+                    for i, row in enumerate(rows):
+                        ex = row_is_exact(row, bits)
+                        if normalised:
+                            ctx.dist('log2cpm_stream', f'exact-equality({np.dtype(dt).name})' if ex else 'general-abs-2e-12')
+                        for j in range(len(mg)):
+                            fr = frac_of(md[i][j])
+                            ok = check_log_value(data[i, j], fr, ex, dt) if normalised \
+                                else Fraction(float(data[i, j])) == fr
+                            if not ok:
+                                bad = (f'data[{i},{j}] = {float(data[i, j])!r}; model value {fr}'
+                                       f'{" under log2(1+.)" if normalised else ""} ({"exact" if ex else "tolerance"})')
+                                break
+                        if bad:
+                            break
+        if bad:
+            ctx.disagreements_checked += 1
+            desc['class'] = 'corr:Normalize.cbg_ops'
+            ctx.violation('CellByGeneMatrix and its model disagree: ' + bad, desc, no_input=True)
+        # the property's own statement on the observed behaviour: CPM is never taken over a
+        # gene subset
+        if obs[0] == 'ok' and normalised:
+            first_log = next(i for i, o in enumerate(ops) if o[0].startswith('log'))
+            if any(o[0].startswith('down') for o in ops[:first_log]):
+                desc['class'] = 'c07-normalised-after-downsampling'
+                ctx.violation('a matrix down-selected by gene was normalised (CPM over a subset of genes)', desc)
+        if guard:
+            ctx.sample({k: desc[k] for k in ('kind', 'genes', 'rows', 'ops', 'model', 'impl')}, limit=8)
+
+
+def make_cases(ctx):
+    """constructor checks (tag 702) incl. unknown normalisation strings."""
+    from cell_type_mapper.cell_by_gene.cell_by_gene import CellByGeneMatrix
+    rng = ctx.rng
+    recs, cases = [], []
+    for _ in range(ctx.n(80, 1500)):
+        ng = rng.randrange(1, 5)
+        genes = rng.sample(range(30), ng)
+        if rng.random() < 0.25 and ng > 1:
+            genes[-1] = genes[0]
+        ncol = ng if rng.random() < 0.75 else rng.choice([ng + 1, max(1, ng - 1)])
+        rows = [[rng.randrange(0, 9) for _ in range(ncol)] for _ in range(rng.randrange(1, 4))]
+        norm = rng.choice(['raw', 'log2CPM', 'CPM', ''])
+        recs.append((genes, rows, norm))
+        cases.append((702, [genes, rows, NORM_WIRE.get(norm, 7)]))
+    res = ctx.model(cases)
+    for (genes, rows, norm), r in zip(recs, res):
+        ctx.count(('make', json.dumps([genes, rows, norm])), nontrivial=False)
+        try:
+            m = CellByGeneMatrix(data=np.array(rows, dtype=float), gene_identifiers=[gname(g) for g in genes],
+                                 normalization=norm)
+            obs = [0, [[gnum(g) for g in m.gene_identifiers], np.asarray(m.data).astype(int).tolist(),
+                       NORM_WIRE[m.normalization], int(bool(m._genes_downsampled))]]
+        except Exception as e:      # noqa
+            obs = [1, err_code(e)]
+        ctx.dist('constructor_outcome', 'ok' if r[0] == 0 else f'error{r[1]}' if r[0] == 1 else 'undecodable')
+        if obs != r:
+            ctx.disagreements_checked += 1
+            ctx.violation(f'CellByGeneMatrix(...) and make_cbg disagree: implementation {obs}, model {r}',
+                          {'class': 'corr:Normalize.make_cbg', 'genes': genes, 'rows': rows, 'normalization': norm,
+                           'model': r, 'impl': obs}, no_input=True)
+
+
+# ------------------------------------------------------------------ stream C: prepare_query
+def real_prepare(ctx, tag, tt, parents, qnames, refnames, lookup, data, norm, enc, chunk):
+    """The calls the mapper makes on the query, in its order: marker cache
+    (write_query_markers_to_h5), negative check (is_data_ge_zero), and per chunk the lines of
+    election.run_type_assignment_on_h5ad_cpu (CellByGeneMatrix, to_log2CPM_in_place,
+    downsample_genes_in_place(all_query_markers)), then matching.assemble_query_data per parent."""
+    import h5py
+    from cell_type_mapper.cell_by_gene.cell_by_gene import CellByGeneMatrix
+    from cell_type_mapper.type_assignment.marker_cache_v2 import write_query_markers_to_h5
+    from cell_type_mapper.type_assignment.matching import assemble_query_data
+    from cell_type_mapper.validation.utils import is_data_ge_zero
+    from cell_type_mapper.anndata_iterator.anndata_iterator import AnnDataRowIterator
+    d = ctx.scratch / tag
+    d.mkdir()
+    with contextlib.redirect_stdout(io.StringIO()):
+        return _real_prepare(d, tt, parents, qnames, refnames, lookup, data, norm, enc, chunk,
+                             h5py, CellByGeneMatrix, write_query_markers_to_h5, assemble_query_data,
+                             is_data_ge_zero, AnnDataRowIterator)
+
+
+def _real_prepare(d, tt, parents, qnames, refnames, lookup, data, norm, enc, chunk,
+                  h5py, CellByGeneMatrix, write_query_markers_to_h5, assemble_query_data,
+                  is_data_ge_zero, AnnDataRowIterator):
+    try:
+        cache = d / 'cache.h5'
+        write_query_markers_to_h5(marker_lookup=lookup, reference_gene_names=refnames,
+                                  query_gene_names=qnames, output_cache_path=cache)
+        q = d / 'q.h5ad'
+        with warnings.catch_warnings():
+            warnings.simplefilter('ignore')
+            gen.write_h5ad(q, data, [f'c{i}' for i in range(data.shape[0])], qnames, encoding=enc)
+        if norm == 'raw':
+            ge = is_data_ge_zero(h5ad_path=q, layer='X')
+            if not ge[0]:
+                return ('err', 1, f'minimum {ge[1]}')
+        with h5py.File(cache, 'r') as f:
+            all_ids = json.loads(f['query_gene_names'][()].decode('utf-8'))
+            all_markers = [all_ids[ii] for ii in f['all_query_markers'][()]]
+        leaves = list(tt.all_leaves)
+        ref = CellByGeneMatrix(
+            data=np.arange(len(leaves) * len(refnames), dtype=float).reshape(len(leaves), len(refnames)),
+            gene_identifiers=list(refnames), normalization='log2CPM', cell_identifiers=leaves)
+        per_parent = [[None, []] for _ in parents]
+        (d / 'tmp').mkdir()
+        it = AnnDataRowIterator(h5ad_path=q, row_chunk_size=chunk, tmp_dir=d / 'tmp', max_gb=1)
+        for ch in it:
+            m = CellByGeneMatrix(data=ch[0], gene_identifiers=all_ids, normalization=norm)
+            if m.normalization != 'log2CPM':
+                m.to_log2CPM_in_place()
+            m.downsample_genes_in_place(all_markers)
+            for k, p in enumerate(parents):
+                r = assemble_query_data(full_query_data=m, mean_profile_matrix=ref, taxonomy_tree=tt,
+                                        marker_cache_path=cache, parent_node=p)
+                per_parent[k][0] = list(r['query_data'].gene_identifiers)
+                per_parent[k][1] += [np.asarray(row) for row in r['query_data'].data]
+                if r['query_data'].gene_identifiers != r['reference_data'].gene_identifiers:
+                    return ('err', 98, 'query and reference columns are not the same genes')
+        del it
+        return ('ok', all_markers, per_parent)
+    except Exception as e:      # noqa
+        return ('err', err_code(e), f'{exc_class(e)}: {e}'[:200])
+    finally:
+        shutil.rmtree(d, ignore_errors=True)
+
+
+def same_prepared(a, b):
+    """bitwise comparison of two observed results of real_prepare (the per-parent part)."""
+    if a[0] != b[0]:
+        return f'{a[0]} vs {b[0]} ({a[1:] if a[0] == "err" else b[1:]})'
+    if a[0] == 'err':
+        return None if a[1] == b[1] else f'error {a[1:]} vs {b[1:]}'
+    for (ga, da), (gb, db) in zip(a[2], b[2]):
+        if ga != gb:
+            return f'columns {ga} vs {gb}'
+        if len(da) != len(db) or any(x.tobytes() != y.tobytes() or x.dtype != y.dtype for x, y in zip(da, db)):
+            return f'values differ for columns {ga}: {[x.tolist() for x in da]} vs {[y.tolist() for y in db]}'
+    return None
+
+
+def prepare_cases(ctx):
+    from cell_type_mapper.taxonomy.taxonomy_tree import TaxonomyTree
+    from cell_type_mapper.cell_by_gene.utils import convert_to_cpm
+    rng = ctx.rng
+    n = ctx.n(50, 1200)
+    recs, cases = [], []
+    for k in range(n):
+        t = trees.random_tree(rng, max_levels=3, max_leaves=6)
+        tt = TaxonomyTree(data=t.data)
+        parents = tt.all_parents
+        n_ref = rng.randrange(3, 10)
+        ref = rng.sample(range(40), n_ref)
+        qg = [g for g in ref if rng.random() < 0.8] or ref[:1]
+        qg += rng.sample(range(100, 140), rng.randrange(0, 4))
+        rng.shuffle(qg)
+        usable = [g for g in ref if g in qg]
+        lookup, lists = {}, []
+        unknown = rng.random() < 0.12
+        for p in parents:
+            key = 'None' if p is None else f'{p[0]}/{p[1]}'
+            lst = rng.sample(usable, rng.randrange(0 if rng.random() < 0.15 else 1, len(usable) + 1))
+            if unknown and rng.random() < 0.5:
+                absent = [g for g in ref if g not in qg]
+                if absent:
+                    lst.append(rng.choice(absent))       # a marker the query does not have
+            lookup[key] = [gname(g) for g in lst]
+            lists.append(sorted(lst, key=ref.index))       # reference order
+        ncell = rng.randrange(1, 6)
+        decl = rng.choice(['raw', 'raw', 'log2CPM'])
+        if decl == 'raw':
+            rows = gen_rows(rng, ncell, len(qg), exact_bias=0.35)
+            if rng.random() < 0.12:
+                rows[rng.randrange(ncell)][rng.randrange(len(qg))] = -rng.randrange(1, 9)
+            dt = pick_dtype(rng, rows)
+            arr = np.array(rows, dtype=dt)
+            wire = rows
+        else:
+            rows = [[rng.randrange(0, 160) for _ in qg] for _ in range(ncell)]
+            dt = rng.choice([np.float64, np.float32])
+            arr = (np.array(rows, dtype=np.float64) / 8.0).astype(dt)
+            wire = [[[x, 8] for x in r] for r in rows]
+        enc = rng.choice(['dense', 'csr', 'csc'])
+        if enc != 'dense' and not arr.any():
+            enc = 'dense'      # a sparse matrix without stored values is C05/C13 territory (finding F2)
+        chunk = rng.randrange(1, ncell + 2)
+        recs.append(dict(tree=t, tt=tt, parents=parents, ref=ref, qg=qg, lookup=lookup, lists=lists, decl=decl,
+                         rows=rows, dt=dt, arr=arr, enc=enc, chunk=chunk))
+        cases.append((706, [qg, 0 if decl == 'raw' else 1, wire, lists]))
+        cases.append((705, [qg, lists]))
+        if decl == 'raw':
+            cases.append((704, rows))
+    res = iter(ctx.model(cases))
+    for k, c in enumerate(recs):
+        r = next(res)
+        rc = next(res)
+        rneg = next(res) if c['decl'] == 'raw' else None
+        qnames, refnames = [gname(g) for g in c['qg']], [gname(g) for g in c['ref']]
+        obs = real_prepare(ctx, f'fp{k}', c['tt'], c['parents'], qnames, refnames, c['lookup'], c['arr'], c['decl'],
+                           c['enc'], c['chunk'])
+        desc = {'kind': 'prepare_query', 'tree': c['tree'].data, 'ref_genes': c['ref'], 'query_genes': c['qg'],
+                'marker_lookup': c['lookup'], 'lists_reference_order': c['lists'], 'declared': c['decl'],
+                'rows(/8 if declared log2CPM)': c['rows'], 'dtype': np.dtype(c['dt']).name, 'encoding': c['enc'],
+                'chunk': c['chunk'], 'model': r,
+                'impl': list(obs[1:]) if obs[0] == 'err' else [[g, [x.tolist() for x in dd]] for g, dd in obs[2]]}
+        nontriv = r[0] == 0 and len(c['parents']) >= 2 and any(len(l) >= 2 for l in c['lists'])
+        ctx.count(('prep', k, json.dumps([c['qg'], c['rows'], c['lists']])), nontrivial=nontriv)
+        ctx.dist('prepare_outcome', 'ok' if r[0] == 0 else f'error{r[1]}' if r[0] == 1 else 'undecodable')
+        ctx.dist('prepare_declared', c['decl'])
+        ctx.dist('prepare_encoding', c['enc'])
+        bad = None
+        if r[0] == 2 or rc[0] == 2:
+            bad = 'model could not decode the case'
+        elif r[0] == 1:
+            if obs[0] != 'err':
+                if r[1] == 1:
+                    desc['class'] = 'c07-negative-accepted'
+                    ctx.violation('raw input containing a negative value was prepared instead of rejected', desc)
+                    continue
+                bad = f'model rejects (error {r[1]}), implementation accepts'
+            elif obs[1] != r[1]:
+                bad = f'error kinds differ: implementation {obs[1:]} model {r[1]}'
+            elif r[1] == 1 and rneg != [0, 1]:
+                bad = f'has_negative {rneg} inconsistent with prepare_query error 1'
+        elif obs[0] != 'ok':
+            bad = f'implementation raised {obs[1:]}, model accepts'
+        else:
+            if rc[0] != 0 or [gnum(g) for g in obs[1]] != rc[1]:
+                bad = f'all_query_markers {obs[1]} vs model {rc}'
+            if rneg is not None and rneg != [0, 0]:
+                bad = f'has_negative: model {rneg} but prepare_query accepted'
+            bits = bits_of(c['dt'])
+            for (gids, dd), lst, mm in zip(obs[2], c['lists'], r[1]):
+                if bad:
+                    break
+                if gids != [gname(g) for g in lst]:
+                    bad = f'columns {gids} are not the markers in reference order {lst}'
+                    break
+                if len(dd) != len(mm):
+                    bad = f'{len(dd)} rows vs model {len(mm)}'
+                    break
+                for i, (vrow, mrow) in enumerate(zip(dd, mm)):
+                    ex = c['decl'] != 'raw' or row_is_exact(c['rows'][i], bits)
+                    for j in range(len(lst)):
+                        fr = frac_of(mrow[j])
+                        ok = check_log_value(vrow[j], fr, ex, c['dt']) if c['decl'] == 'raw' \
+                            else Fraction(float(vrow[j])) == fr
+                        if not ok:
+                            bad = f'cell {i} gene {lst[j]}: implementation {float(vrow[j])!r}, model value {fr}'
+                            break
+                    if bad:
+                        break
+        if bad:
+            ctx.disagreements_checked += 1
+            desc['class'] = 'corr:Normalize.prepare_query'
+            ctx.violation('query preparation and its model disagree: ' + bad, desc, no_input=True)
+            continue
+        if k < 3:
+            ctx.sample({kk: desc[kk] for kk in ('kind', 'query_genes', 'marker_lookup', 'declared',
+                                                  'rows(/8 if declared log2CPM)', 'model')}, limit=12)
+        # ---- the property's own statement, on the implementation, at function level (bitwise) ----
+        if obs[0] != 'ok':
+            continue
+        ng = len(c['qg'])
+        nrow = c['arr'].shape[0]
+        perm = list(range(ng))
+        rng.shuffle(perm)
+        ctx.dist('function_relation', 'gene-permutation')
+        o2 = real_prepare(ctx, f'fq{k}', c['tt'], c['parents'], [qnames[j] for j in perm], refnames, c['lookup'],
+                          c['arr'][:, perm], c['decl'], c['enc'], c['chunk'])
+        diff = same_prepared(obs, o2)
+        if diff:
+            dd = dict(desc)
+            dd.update({'class': 'c07-fn-gene-permutation', 'perm': perm})
+            ctx.violation(f'permuting the gene columns with their names changed the prepared query: {diff}', dd)
+        if c['decl'] == 'raw' and np.issubdtype(np.dtype(c['dt']), np.floating):
+            ctx.dist('function_relation', 'raw-vs-declared')
+            normed = np.log2(1.0 + convert_to_cpm(c['arr']))
+            o3 = real_prepare(ctx, f'fr{k}', c['tt'], c['parents'], qnames, refnames, c['lookup'], normed, 'log2CPM',
+                              c['enc'] if normed.any() else 'dense', c['chunk'])
+            diff = same_prepared(obs, o3)
+            if diff:
+                dd = dict(desc)
+                dd['class'] = 'c07-fn-raw-vs-declared'
+                ctx.violation(f'declaring the normalised matrix gave another prepared query: {diff}', dd)
+        if c['decl'] == 'log2CPM':
+            ctx.dist('function_relation', 'extra-genes')
+            used = set(g for lst in c['lists'] for g in lst)
+            keep = [j for j in range(ng) if c['qg'][j] in used or rng.random() < 0.5]
+            extra = rng.sample(range(200, 230), rng.randrange(0, 4))
+            names2 = [qnames[j] for j in keep] + [gname(g) for g in extra]
+            add = (np.array([[rng.randrange(0, 97) for _ in extra] for _ in range(nrow)], dtype=np.float64)
+                   .reshape(nrow, len(extra)) / 8.0).astype(c['dt'])
+            arr2 = np.hstack([c['arr'][:, keep], add])
+            order = list(range(len(names2)))
+            rng.shuffle(order)
+            if names2:
+                o4 = real_prepare(ctx, f'fx{k}', c['tt'], c['parents'], [names2[j] for j in order], refnames, c['lookup'],
+                                  arr2[:, order], 'log2CPM', c['enc'] if arr2.any() else 'dense', c['chunk'])
+                diff = same_prepared(obs, o4)
+                if diff:
+                    dd = dict(desc)
+                    dd.update({'class': 'c07-fn-extra-genes', 'genes2': [names2[j] for j in order]})
+                    ctx.violation(f'adding/removing non-marker genes changed the prepared query: {diff}', dd)
+
+
+def model_tie(ctx):
+    cpm_cases(ctx)
+    make_cases(ctx)
+    ops_cases(ctx)
+    prepare_cases(ctx)
+
+
+TIE_RULE = (
+    'MODEL TIE (function level): convert_to_cpm on integer matrices (all-zero rows, single gene, negative entries; '
+    'int32/int64/float64, float32 only when exact) vs cpm_row: EXACT equality of the binary value with the model fraction on rows '
+    'for which every float operation is exact by construction (row sum = 2^a * o with every entry a multiple of o; decided per row '
+    'by row_is_exact), relative 1e-12 otherwise (see distribution cpm_stream); CellByGeneMatrix constructor / '
+    'to_log2CPM(_in_place) / downsample_genes(_in_place) sequences (duplicate / unknown / empty selections, bad normalisation '
+    'strings, wrong shapes) vs make_cbg / to_log2cpm / downsample_genes incl. the _genes_downsampled guard: identifiers, order, '
+    'flags exactly, error kinds through the enum, values exactly (exact stream) or |delta log2(1+v)| <= 2e-12 (distribution '
+    'log2cpm_stream); write_query_markers_to_h5 + is_data_ge_zero + AnnDataRowIterator + the CellByGeneMatrix lines of '
+    'run_type_assignment_on_h5ad_cpu + assemble_query_data vs marker_cache / has_negative / prepare_query on random trees (<=3 '
+    'levels; dense/csr/csc; chunked), each followed by function-level BITWISE relations on the implementation (gene permutation, '
+    'raw vs declared-normalised, extra genes).  non-trivial = cpm row with >=2 genes and positive sum / operation sequence that '
+    'normalises and down-selects or trips the guard / prepare case with >=2 parents and a parent with >=2 markers.  ')
 
 
 def run(ctx):
+    ctx.assumptions += [
+        'model tie: counts are integers (the model rows are Z); float32 inputs only where the computation is exact in 24 bits',
+        'model tie: log2(1+.) is not modelled: the model returns the exact CPM value and the harness applies numpy.log2(1+.) to it',
+        'model tie: the three CellByGeneMatrix lines of election.run_type_assignment_on_h5ad_cpu are replicated by the harness '
+        '(real_prepare); the real lines themselves run in the paired run_mapping runs',
+        'model tie: duplicate query gene names and sparse matrices without stored values are not generated for prepare_query '
+        '(constructor stream covers duplicates; empty sparse matrices are C05/C13, finding F2)',
+        'markers absent from the reference are not generated (C08)',
+    ]
+    model_tie(ctx)
+    paired_runs(ctx)
+
+
+def paired_runs(ctx):
     from cell_type_mapper.cell_by_gene.utils import convert_to_cpm
     rng = ctx.rng
-    ctx.rule = ('paired real run_mapping runs on integer raw counts: (a) raw vs the same matrix pre-normalised to log2(CPM+1) '
+    ctx.rule = TIE_RULE + (
+                'PAIRED REAL RUNS: '
+                'paired real run_mapping runs on integer raw counts: (a) raw vs the same matrix pre-normalised to log2(CPM+1) '
                 'and declared log2CPM (factor 1, 1e-9); (b) every cell multiplied by a power of two (bitwise, any factor) or '
                 'by another positive constant (factor 1, 1e-9); (c) gene columns permuted together with their names (bitwise, '
                 'any factor); (d) for normalised input, extra non-marker / non-reference genes added or removed (bitwise, any '
@@ -92,5 +733,66 @@ def run(ctx):
 
 
 def replay(ctx, rec):
-    print(json.dumps(rec, indent=1)[:6000])
+    """Re-run one recorded case through implementation and model and print both."""
+    kind = rec.get('kind')
+    print(json.dumps({k: v for k, v in rec.items() if k not in ('model', 'impl')}, indent=1)[:6000])
+    if kind is None and 'rows' in rec and 'dtype' in rec and 'ops' not in rec:
+        kind = 'convert_to_cpm'
+    if kind == 'convert_to_cpm':
+        from cell_type_mapper.cell_by_gene.utils import convert_to_cpm
+        out = convert_to_cpm(np.array(rec['rows'], dtype=np.dtype(rec['dtype'])))
+        mod = ctx.model([(701, rec['rows'])])[0]
+        print('implementation:', [[repr(float(v)) for v in row] for row in out])
+        print('model (num den):', mod)
+        bad = 0
+        for i, row in enumerate(rec['rows']):
+            ex = row_is_exact(row, bits_of(rec['dtype']))
+            for j in range(len(row)):
+                okv = check_cpm_value(out[i, j], frac_of(mod[1][i][j]), ex)
+                bad += not okv
+                print(f'  row {i} entry {j}: {"exact" if ex else "1e-12"} comparison -> {"agree" if okv else "DISAGREE"}')
+        return 1 if bad else 0
+    if kind == 'CellByGeneMatrix-ops':
+        from cell_type_mapper.cell_by_gene.cell_by_gene import CellByGeneMatrix
+        ops = rec['ops']
+        wire_ops = [[0] if o[0].startswith('log') else [1, o[1]] for o in ops]
+        mod = ctx.model([(703, [rec['genes'], rec['rows'], NORM_WIRE.get(rec['normalization'], 5), wire_ops])])[0]
+        try:
+            m = CellByGeneMatrix(data=np.array(rec['rows'], dtype=np.dtype(rec['dtype'])),
+                                 gene_identifiers=[gname(g) for g in rec['genes']], normalization=rec['normalization'])
+            for o in ops:
+                if o[0] == 'log_inplace':
+                    m.to_log2CPM_in_place()
+                elif o[0] == 'log_new':
+                    m = m.to_log2CPM()
+                elif o[0] == 'down_new':
+                    m = m.downsample_genes([gname(g) for g in o[1]])
+                else:
+                    m.downsample_genes_in_place([gname(g) for g in o[1]])
+            print('implementation: genes', m.gene_identifiers, 'normalization', m.normalization, 'downsampled',
+                  m._genes_downsampled, 'data', np.asarray(m.data).tolist())
+            impl_ok = True
+        except Exception as e:      # noqa
+            print('implementation raised', err_code(e), f'{exc_class(e)}: {e}')
+            impl_ok = False
+        print('model:', mod, '(data are exact CPM values num/den; log2(1+.) is applied by the harness)')
+        return 0 if impl_ok == (mod[0] == 0) else 1
+    if kind == 'prepare_query':
+        from cell_type_mapper.taxonomy.taxonomy_tree import TaxonomyTree
+        tt = TaxonomyTree(data=rec['tree'])
+        rows = rec['rows(/8 if declared log2CPM)']
+        dt = np.dtype(rec['dtype'])
+        if rec['declared'] == 'raw':
+            arr, wire = np.array(rows, dtype=dt), rows
+        else:
+            arr, wire = (np.array(rows, dtype=np.float64) / 8.0).astype(dt), [[[x, 8] for x in r] for r in rows]
+        mod = ctx.model([(706, [rec['query_genes'], 0 if rec['declared'] == 'raw' else 1, wire, rec['lists_reference_order']])])[0]
+        obs = real_prepare(ctx, 'replay', tt, tt.all_parents, [gname(g) for g in rec['query_genes']],
+                           [gname(g) for g in rec['ref_genes']], rec['marker_lookup'], arr, rec['declared'],
+                           rec['encoding'], rec['chunk'])
+        print('implementation:', obs[1:] if obs[0] == 'err' else [[g, [x.tolist() for x in dd]] for g, dd in obs[2]])
+        print('model:', mod, '(raw input: exact CPM values num/den, log2(1+.) applied by the harness)')
+        return 0 if (obs[0] == 'ok') == (mod[0] == 0) else 1
+    print('paired real runs are replayed by re-running the two configurations printed above through '
+          'harness.paired.run_once (tree, markers, raw matrix and both configurations are in the record)')
     return 0
